@@ -220,18 +220,18 @@ def theorem_at(path, line):
     return None
 
 
-def coq_props(prop_dir, allow=()):
-    """(Re)check <prop_dir>/Props.v, return dict theorem -> list of axioms (from Print Assumptions).
+def coq_props(prop_dir, allow=(), props="Props"):
+    """(Re)check <prop_dir>/<props>.v, return dict theorem -> list of axioms (from Print Assumptions).
     Raises nothing on proof failure: returns (ok, theorems, log)."""
-    vo = os.path.join(COQ, prop_dir, "Props.vo")
+    vo = os.path.join(COQ, prop_dir, props + ".vo")
     if os.path.exists(vo):
         os.remove(vo)
-    rc, out, err = sh([os.path.join(VERIF, "bin", "coqbuild"), prop_dir + "/Props.vo"], timeout=2400)
+    rc, out, err = sh([os.path.join(VERIF, "bin", "coqbuild"), prop_dir + "/" + props + ".vo"], timeout=2400)
     text = out + err
     _coq_infra(rc, text)
     if rc != 0:
         return False, {}, text
-    src = open(os.path.join(COQ, prop_dir, "Props.v")).read()
+    src = open(os.path.join(COQ, prop_dir, props + ".v")).read()
     names = re.findall(r"^Print Assumptions\s+([A-Za-z0-9_']+)\s*\.", src, re.M)
     # split the output into one block per Print Assumptions, in order
     blocks = re.split(r"(?m)^(?=Closed under the global context|Axioms:)", out)
@@ -245,13 +245,13 @@ def coq_props(prop_dir, allow=()):
         if b.startswith("Closed under"):
             theorems[n] = []
         else:
-            axs = re.findall(r"(?m)^([A-Za-z0-9_.']+)\s*:", b)
+            axs = [a for a in re.findall(r"(?m)^([A-Za-z0-9_.']+)\s*:", b) if a != "Axioms"]
             theorems[n] = axs
     return True, theorems, text
 
 
-def theorem_statements(prop_dir):
-    src = open(os.path.join(COQ, prop_dir, "Props.v")).read()
+def theorem_statements(prop_dir, props="Props"):
+    src = open(os.path.join(COQ, prop_dir, props + ".v")).read()
     return re.findall(r"(?m)^Theorem\s+([A-Za-z0-9_']+)", src)
 
 
@@ -400,9 +400,24 @@ class Check:
         self.violations.append({"kind": kind, "detail": detail, "no_failing_input_found": no_input})
 
     # --- standard proof stage
-    def proof_stage(self, prop_dir, allow_axioms=(), rs2v_units=None):
+    def proof_stage(self, prop_dir, allow_axioms=(), rs2v_units=None, extra_props=()):
         """rs2v (if units given) -> gate -> build Props.vo -> Print Assumptions vs allowlist.
+        extra_props: further property files of the same directory, as (basename, allow_axioms) pairs.
         Returns dict with 'proofs_ok', 'tie_ok'."""
+        res = {"proofs_ok": True, "tie_ok": True, "broken": []}
+        self.obligations = 0
+        self.discharged = 0
+        self.coverage.setdefault("theorems", {})
+        first = True
+        for props, allow in [("Props", allow_axioms)] + list(extra_props):
+            r = self._proof_file(prop_dir, props, allow, rs2v_units if first else None, gate_too=first)
+            first = False
+            res["proofs_ok"] = res["proofs_ok"] and r["proofs_ok"]
+            res["tie_ok"] = res["tie_ok"] and r["tie_ok"]
+            res["broken"].extend(r["broken"])
+        return res
+
+    def _proof_file(self, prop_dir, props, allow_axioms, rs2v_units, gate_too=True):
         res = {"proofs_ok": True, "tie_ok": True, "broken": []}
         if rs2v_units is not None:
             rep, broken = rs2v(rs2v_units)
@@ -411,21 +426,23 @@ class Check:
                 res["tie_ok"] = False
                 for b in broken:
                     res["broken"].append({"what": "translator", "unit": b["unit"], "message": b["error"]})
-        bad = gate()
+        bad = gate() if gate_too else []
         if bad:
             res["proofs_ok"] = False
             res["broken"].append({"what": "gate", "offending": bad[:20]})
-        ok, theorems, text = coq_props(prop_dir)
-        names = theorem_statements(prop_dir)
-        self.obligations = len(names)
-        self.checker_cmd = "bin/coqbuild %s/Props.vo  (coq_makefile + make, full .vo, coqc 8.16.1); Print Assumptions per theorem" % prop_dir
+        ok, theorems, text = coq_props(prop_dir, props=props)
+        names = theorem_statements(prop_dir, props)
+        self.obligations += len(names)
+        if gate_too:
+            self.checker_cmd = "bin/coqbuild %s/Props.vo  (coq_makefile + make, full .vo, coqc 8.16.1); Print Assumptions per theorem" % prop_dir
+        else:
+            self.checker_cmd += "; bin/coqbuild %s/%s.vo" % (prop_dir, props)
         if not ok:
             res["proofs_ok"] = False
             es = coq_error_summary(text)
             thm = theorem_at(es["file"], es["line"]) if es["file"] and es["line"] else None
             es["theorem"] = thm
             res["broken"].append({"what": "proof", **es})
-            self.discharged = 0
         else:
             good = 0
             for n in names:
@@ -440,8 +457,8 @@ class Check:
                     res["broken"].append({"what": "assumptions", "theorem": n, "message": "unexpected axioms: %s" % extra})
                 else:
                     good += 1
-            self.discharged = good
-            self.coverage["theorems"] = {n: (theorems.get(n) or "closed") for n in names}
+            self.discharged += good
+            self.coverage["theorems"].update({n: (theorems.get(n) or "closed") for n in names})
         return res
 
     # --- finish
